@@ -489,7 +489,12 @@ func inputKeyedComposableRunnable(key string, r *composableRunnable) *composable
 	wrapper.i = func(ctx context.Context, input any, opts ...any) (output any, err error) {
 		v, ok := input.(map[string]any)[key]
 		if !ok {
-			return nil, fmt.Errorf("cannot find input key: %s", key)
+			if getCheckPointFromCtx(ctx) == nil {
+				return nil, fmt.Errorf("cannot find input key: %s", key)
+			}
+			// a nested graph resumed from its own checkpoint: the run loop hands it the zero value of the
+			// node's input (the real input was consumed before the interrupt) and the graph ignores it
+			v = r.inputZeroValue()
 		}
 		out, err := i(ctx, v, opts...)
 		if err != nil {
